@@ -66,6 +66,14 @@ Theorem C19_history_independent_refuted :
 Proof. exact history_independent_refuted. Qed.
 Print Assumptions C19_history_independent_refuted.
 
+(* ... and on a LINEAR hierarchy (every queried MRO is a suffix of one duplicate-free chain: single inheritance)
+   every history of queries is answered as on a fresh cache *)
+Theorem C19_history_independent_partial : forall scan chain qs,
+  NoDup chain -> forallb (fun q => suffixb q chain) qs = true ->
+  run_queries_gen scan qs [] = map (fun mro => fst (get_doc_gen scan mro [])) qs.
+Proof. exact history_independent_partial. Qed.
+Print Assumptions C19_history_independent_partial.
+
 (* non-vacuity: a concrete layout inside the theorem's domain, what it prints and what the scanner answers *)
 Definition demo : layout :=
   mklayout ["@dataclass(frozen=True)"; "class Opt(Base):"; "    """""""; """"""""] 4
@@ -82,5 +90,6 @@ Example C19_nonvacuous :
   /\ scan_lines_gen (render demo) "lr" = Some (join_text ["learning rate"; "second line"], "inline lr", "")
   /\ scan_lines_gen (render demo) "lr_decay" = Some ("", "", join_text [""; "decay of lr"; ""; "more"; ""])
   /\ scan_lines_gen (render demo) "name" = Some ("above name", "", "doc of name")
-  /\ scan_lines_gen (render demo) "l" = None.
+  /\ scan_lines_gen (render demo) "l" = None
+  /\ forallb (fun q => suffixb q ["C"; "B"; "A"]) [["A"]; ["C"; "B"; "A"]; ["B"; "A"]] = true.
 Proof. vm_compute. repeat split; reflexivity. Qed.
